@@ -31,6 +31,7 @@ let parse_ops s =
     | 'k' -> (match split_on ':' t with
               | [c; u] -> Seek (pack (n_of_dec c) (n_of_dec u)) | _ -> failwith "seek")
     | 'u' -> SeekU (n_of_dec t)
+    | 'a' -> ReadAll (n_of_dec t)
     | _ -> failwith "op") (split_on ',' s)
 
 let canon_bytes bs =
